@@ -293,14 +293,22 @@ impl<'ccx, 'tcx: 'ccx> TyGenContext<'ccx, 'tcx> {
         }
 
         let param_decls = {
-            if matches!(
-                method.attrs.special_method,
-                Some(hir::SpecialMethod::Constructor) | Some(hir::SpecialMethod::Setter(_)) // We only need type info for constructors or certain setters
-            ) && !matches!(
-                // and even then, only when the type isn't opaque
-                id,
-                TypeId::Opaque(_)
-            ) {
+            // A static setter is wrapped in a lambda that spells out its parameters, whatever the type
+            let is_static_setter = method.param_self.is_none()
+                && matches!(
+                    method.attrs.special_method,
+                    Some(hir::SpecialMethod::Setter(_))
+                );
+            if is_static_setter
+                || matches!(
+                    method.attrs.special_method,
+                    Some(hir::SpecialMethod::Constructor) | Some(hir::SpecialMethod::Setter(_)) // We only need type info for constructors or certain setters
+                ) && !matches!(
+                    // and even then, only when the type isn't opaque
+                    id,
+                    TypeId::Opaque(_)
+                )
+            {
                 Some(
                     method
                         .params
